@@ -49,7 +49,7 @@ manifest = {
          "kind_free_text": "Lean 4 model and theorems (lake project CC), native Lean driver speaking a line protocol, Rust differential harness driving the real API in-process"},
     ],
     "checks": checks,
-    "notes": "Repairs of genuine defects found while building the model are `fix:` commits in /repo (see known_findings.json, entries with status fixed, and DESIGN.md section 7). Two recorded findings (D9 / C08, D12 / C12) print KNOWN-FINDING lines. Output lines other than VIOLATION: `KNOWN-FINDING: ...`, and `DEGRADED property=... table=...` when a supporting source-derived table cannot be extracted from a restructured source (the deep campaign is run instead; DESIGN.md section 4.2). setup.sh builds the Lean project and both harness configurations; every check rebuilds against /repo's working tree (VERIF_REPO overrides the path). Seeded changes (seeded/), harmless refactorings (benign/), automatic mutants (mutation/) and the scripts that replay them (tools/) document what the checks catch and what they leave alone.",
+    "notes": "Repairs of genuine defects found while building the model are `fix:` commits in /repo (see known_findings.json, entries with status fixed, and DESIGN.md section 7). Three recorded findings (D9 / C08, D12 / C12, D15 / C07) print KNOWN-FINDING lines. Output lines other than VIOLATION: `KNOWN-FINDING: ...`, and `DEGRADED property=... table=...` when a supporting source-derived table cannot be extracted from a restructured source (the deep campaign is run instead; DESIGN.md section 4.2). setup.sh builds the Lean project and both harness configurations; every check rebuilds against /repo's working tree (VERIF_REPO overrides the path). Seeded changes (seeded/), harmless refactorings (benign/), automatic mutants (mutation/) and the scripts that replay them (tools/) document what the checks catch and what they leave alone.",
     "not_applicable": na,
 }
 json.dump(manifest, open(os.path.join(VERIF, "MANIFEST.json"), "w"), indent=1)
